@@ -33,6 +33,8 @@ Sec(const std::string &name, char l = '0')
       {"6a", "L6#a E6b M6ab R# D6a D6b"},
       {"Xo", "LX#a W# LX1b W1 MXab W# DXb DXa"},  // move assignment over an owning guard (other lock)
       {"So", "LS#a LS1b MSab R# DSb DSa"},
+      {"Ss", "LS#a LS#b MSab R# DSb DSa"},       // two shared grants on one lock, one move-assigned over the other
+      {"Sd", "LS#a LS#b MSba R# DSa DSb"},
       {"6o", "L6#a L61b M6ab R# D6b D6a"},
       {"e", "ESa DSa E6a D6a EXa DXa"},        // empty guards
       {"eU", "E6a UPaa DXa D6a"},              // conversions of empty guards
@@ -65,6 +67,7 @@ Sec(const std::string &name, char l = '0')
       {"Xmv", "LX#a SVap CXab W# DXb DXa"},
       {"Xav", "LX#a SVap EXb MXab XGb W# DXa DXb"},
       {"Xov", "LX#a W# LX1b SVbp W1 MXab W# DXb DXa"},
+      {"Xp", "LX1a LX#b W# MXab DXb DXa"},      // exclusive grant on this lock ended by move assignment of another lock's guard
   };
   auto it = m.find(name);
   std::string s = it == m.end() ? name : it->second;
@@ -229,7 +232,7 @@ Family(const std::string &f, int lk)
     for (auto &x : a0)
       for (auto &y : a1) out.push_back(x + " | " + y);
   } else if (f == "guards1") {  // sequential guard algebra (one thread)
-    for (const char *s : {"Xm", "Sm", "6m", "Xa", "Sa", "6a", "Xo", "So", "6o", "e", "eU", "eD", "Um", "Dm", "SS", "S6", "DU", "UD"}) {
+    for (const char *s : {"Xm", "Sm", "6m", "Xa", "Sa", "6a", "Xo", "So", "6o", "e", "eU", "eD", "Um", "Dm", "SS", "S6", "DU", "UD", "Ss", "Sd", "Xp"}) {
       out.push_back(Sec(s));
     }
     // two sections in a row (state left by the first is the start of the second)
@@ -237,7 +240,7 @@ Family(const std::string &f, int lk)
     for (auto &x : g)
       for (auto &y : g) out.push_back(Sec(x) + " " + Sec(y));
   } else if (f == "guards2") {  // guard algebra against one contender
-    const Strs g = {"Xm", "Sm", "6m", "Xa", "Sa", "6a", "Xo", "So", "6o", "Um", "Dm", "eU", "eD", "SS", "S6"};
+    const Strs g = {"Xm", "Sm", "6m", "Xa", "Sa", "6a", "Xo", "So", "6o", "Um", "Dm", "eU", "eD", "SS", "S6", "Ss", "Sd", "Xp"};
     for (auto &x : g)
       for (auto &y : {"S", "SIX", "X", "U"}) out.push_back(Sec(x) + " | " + Sec(y));
     for (auto &x : {"Xo", "So", "6o"}) out.push_back(Sec(x) + " | " + Sec("X", '1'));
@@ -263,6 +266,11 @@ Family(const std::string &f, int lk)
       for (auto &r : {"O", "OO", "OS", "O6", "OX", "OU", "P"})
         for (auto &w : {"X", "Xvp", "U", "D", "S", "SIX", "OX", "P"}) out.push_back(Sec(r) + " | " + Sec(w));
       add(WithVersion(Cross(readers, writers, 1), "ffffffff"));
+      // a section whose exclusive grant ends by move assignment of another lock's guard, after a plain section
+      for (auto &r : {"O", "OO", "OX", "OS", "P"}) {
+        out.push_back(Sec(r) + " | " + Sec("X") + " " + Sec("Xp"));
+        out.push_back(Sec(r) + " | " + Sec("Xp") + " " + Sec("Xp"));
+      }
     } else if (f == "opt2x2") {
       for (auto &r : {"O", "OS", "OX", "P"})
         for (auto &w1 : {"X", "U", "D", "S"})
